@@ -201,3 +201,97 @@ def step_contract(cfg: ivp.Cfg):
         inherits=("revert#", "revert_conditional#", "solve_tril#", "residual_whitened_rms_flat#"),
         doc="one step == predict with the prior transition, linearise at the predicted mean, condition on zero data (textbook EKF)",
     )
+
+
+# --------------------------------------------------------------------------------------
+# solver.init (C02): the initial state, with and without the initial-constraint update
+# --------------------------------------------------------------------------------------
+
+
+def init_contract(cfg: ivp.Cfg, with_update: bool):
+    """``solver*.init``: without ``constraint_init`` the state is the prior's initial random variable; with it, the
+    initial random variable conditioned on the linearised constraint at t0 (textbook update with a gain that
+    solves K S = P H^T in the least-squares sense; S non-singular is an inherited precondition)."""
+    L = cfg.L
+    cls = {"none": "solver", "mle": "solver_mle", "dynamic": "solver_dynamic"}[cfg.calib]
+
+    def wrap(target):
+        def f(self, t, prior, *, damp):
+            return target(self, t, prior, damp=damp)
+
+        return f
+
+    def ensures(res, self, t, prior, *, damp):
+        import probdiffeq.backend.linalg as LA
+
+        rv0 = prior.init
+        m0, P0 = rv0.mean_flat, cov(L, rv0)
+        cl = [eq("time", res.t, t), eq("num_steps_zero", res.num_steps, 0), eq("output_scale_one", res.output_scale, 1.0)]
+        for k, (a, b) in enumerate(zip(jax.tree_util.tree_leaves(res.prior), jax.tree_util.tree_leaves(prior))):
+            cl.append(eq(f"prior_unchanged{k}", a, b))
+        for k, leaf in enumerate(jax.tree_util.tree_leaves(res.fun_evals)):
+            cl.append(eq(f"cached_linearisation_zero{k}", leaf, 0.0))
+        fm = ivp.filtering_marginal(res)
+        cl += [eq("u_is_filtering_marginal_mean", res.u.mean_flat, fm.mean_flat), eq("u_is_filtering_marginal_chol", res.u.cholesky_flat, fm.cholesky_flat)]
+        if cfg.strategy != "filter":
+            A, b, Q = law(L, res.solution_full.conditional)
+            n = rv0.mean_flat.shape[-1] if L is G.BlockL else rv0.mean_flat.shape[0]
+            eye = jnp.eye(n)
+            if L is G.BlockL:
+                eye = jnp.broadcast_to(eye, A.shape)
+            cl += [eq("backward_model_identity_linop", A, eye), eq("backward_model_identity_offset", b, 0.0), eq("backward_model_identity_cov", Q, 0.0)]
+        if not with_update:
+            cl += [eq("mean_is_prior_initial_mean", res.u.mean_flat, m0), eq("cov_is_prior_initial_cov", cov(L, res.u), P0)]
+            if cfg.calib == "mle":
+                _, running, n_data = res.auxiliary
+                cl += [eq("mle_running_zero", running, 0.0), eq("mle_count_zero", n_data, 0.0)]
+            return cl
+        H, b = ivp.linearise_spec(cfg, m0, t)
+        S = L.mm(L.mm(H, P0), L.T(H)) + ivp.damp_cov(cfg, H, damp)
+        lin = ivp.lin_cond(cfg, H, b, damp)
+        observed, bwd = lin.revert(rv0, solve_triu=LA.lstsq_svd)  # memoised contract call: ghost gain
+        K, _, _ = law(L, bwd)
+        resid = L.mv(H, m0) + b
+        cl += [
+            eq("gain_equation", L.mm(K, S), L.mm(P0, L.T(H))),
+            eq("posterior_mean", res.u.mean_flat, m0 - L.mv(K, resid)),
+            eq("posterior_cov", cov(L, res.u), P0 - L.mm(L.mm(K, S), L.T(K))),
+        ]
+        if cfg.calib == "mle":
+            _, running, n_data = res.auxiliary
+            term, cl_term = whitened_rms_spec(cfg, observed, "mle_init_term")
+            cl += cl_term
+            cl += [eq("mle_innovation_mean", observed.mean_flat, resid), eq("mle_innovation_cov", cov(L, observed), S),
+                   eq("mle_running_is_initial_whitened_rms", running, term), eq("mle_count_one", n_data, 1.0)]
+        return cl
+
+    def instances(tier):
+        def make(rng):
+            ssm, ode, constraint, strategy, solver = ivp.make_solver(cfg, constraint_init=with_update)
+            tcoeffs = [jnp.asarray(rng.normal(size=(cfg.d,))) for _ in range(cfg.q + 1)]
+            prior = ssm.prior_wiener_integrated(tcoeffs, is_exact=False)
+            prior = ivp.randomise(prior, rng, positive=[prior.output_scale])
+            return (solver, jnp.asarray(0.3), prior), {"damp": jnp.asarray(rng.uniform(0.05, 0.2))}
+
+        def positive(args, kwargs):
+            return [args[2].output_scale]
+
+        def nonneg(args, kwargs):
+            return [kwargs["damp"]]
+
+        def names(args, kwargs):
+            pr = args[2]
+            return {id(args[1]): "t", id(pr.init.mean_flat): "m0", id(pr.init.cholesky_flat): "L0", id(kwargs["damp"]): "damp"}
+
+        return [Instance(cfg.name + (",constraint_init" if with_update else ""), make, positive=positive, nonneg=nonneg, names=names)]
+
+    mod = "probdiffeq._probdiffeq.solvers"
+    from . import normals as N
+
+    callees = [G.BY_LAYOUT[cfg.layout]["revert"], N.BY_LAYOUT[cfg.layout]["residual_whitened_rms_flat"]]
+    return Contract(
+        name=f"{mod}:{cls}.init[{cfg.name}{',constraint_init' if with_update else ''}]", module=mod, qualname=f"{cls}.init",
+        ensures=ensures, instances=instances, callees=callees, wrap=wrap,
+        inherits=("revert#", "revert_conditional#", "solve_tril#", "residual_whitened_rms_flat#", "ghost_inverse#"),
+        doc="initial state == prior initial rv (no constraint_init) or its exact Gaussian conditioning on the linearised initial constraint (gain by least squares; innovation covariance assumed non-singular)",
+    )
